@@ -113,8 +113,18 @@ pub fn check_stream(
                 with_packed: rng.chance(1, 2),
                 with_unpacked: rng.chance(1, 2),
                 extra_header_words: 0,
-                dict_prop: xz::lzma2_dict_prop_for(w.output.len() as u64),
+                // the announced dictionary only has to cover the largest distance used: half of
+                // the time it is the smallest such value (then often far below the output size,
+                // with copies at exactly the dictionary size), else anything up to the output size
+                dict_prop: {
+                    let lo = xz::lzma2_dict_prop_for(w.need_dict.max(1));
+                    let hi = xz::lzma2_dict_prop_for(w.output.len() as u64).max(lo);
+                    if rng.chance(1, 2) { lo } else { rng.range(lo as u64, hi as u64) as u8 }
+                },
             };
+            if (w.output.len() as u64) > 3 * xz::lzma2_dict_size(bo.dict_prop) {
+                cov.name("xz_blocks_with_output_above_3x_announced_dictionary", 1);
+            }
             let f = XzSpec::new(check, vec![BlockSpec::new(w.bytes.clone(), w.output.clone(), check, &bo)])
                 .serialize()
                 .0;
@@ -202,6 +212,16 @@ fn fam_random(ctx: &CaseCtx, cov: &mut Cov) -> CaseOut {
     if rng.chance(1, 3) {
         // emphasise chunks that inherit state
         p.w = [1, 4, 12, 3, 2, 1];
+    }
+    if rng.chance(1, 5) {
+        // distances capped at a dictionary size, long copies, few dictionary resets: the output
+        // grows to many times the dictionary a container has to announce
+        p.max_dist = *rng.pick(&[4096u64, 6144, 8192, 12288, 65536]);
+        p.long_bias = true;
+        p.w = [0, 3, 10, 3, 3, 0];
+        p.n_chunks = rng.range(4, 16) as usize;
+        p.max_syms = 300;
+        cov.name("streams_with_capped_distances", 1);
     }
     let chunks = gen_chunks(&mut rng, &p);
     run_chunks("random", &chunks, &mut out, cov, ctx, &mut rng);
@@ -447,7 +467,8 @@ fn fam_liblzma(ctx: &CaseCtx, cov: &mut Cov) -> CaseOut {
             return out;
         }
     };
-    let w = Written { bytes: enc, chunks: vec![], output: plain };
+    let need_dict = plain.len() as u64;
+    let w = Written { bytes: enc, chunks: vec![], output: plain, need_dict };
     let desc = format!("liblzma LZMA2 stream, {} plain bytes, {} sync flushes, lc{} lp{} pb{}", w.output.len(), flushes.len(), props.lc, props.lp, props.pb);
     check_stream("liblzma", &w, &desc, &mut out, cov, ctx, &mut rng, false);
     cov.name("liblzma_encoded_streams", 1);
